@@ -7,12 +7,12 @@
 #include <chrono>
 using namespace vf;
 
-enum OpKind { EV0, EV3, EV7, EVS, TG0, TG1, TG2, TG3, TG4, ANY_OFF, ANY_ON, ST_RKF45, ST_RK4, ST_MSADAMS, ADAPT_TOGGLE, TOL_TOGGLE, HMIN_TOGGLE, MOVE_CTOR, MOVE_ASSIGN_FRESH, MOVE_ASSIGN_USED, REINIT, NOPS };
+enum OpKind { EV0, EV3, EV7, EVS, TG0, TG1, TG2, TG3, TG4, ANY_OFF, ANY_ON, ST_RKF45, ST_RK4, ST_MSADAMS, ADAPT_TOGGLE, TOL_TOGGLE, HMIN_TOGGLE, HMAX_TOGGLE, MOVE_CTOR, MOVE_ASSIGN_FRESH, MOVE_ASSIGN_USED, REINIT, NOPS };
 static const char* OPNAME[] = {"Evolve(0)", "Evolve(0.3)", "Evolve(0.7)", "Evolve(5e-4)", "toggle-Coherent", "toggle-NonCoherent", "toggle-OtherRho", "toggle-GammaScalar", "toggle-OtherScalar", "AnyNumerics(false)", "AnyNumerics(true)",
-                               "stepper-rkf45", "stepper-rk4", "stepper-msadams", "toggle-adaptive", "toggle-tolerance", "toggle-h_min(1e-3)", "move-construct", "move-assign-into-fresh", "move-assign-into-used", "re-ini"};
+                               "stepper-rkf45", "stepper-rk4", "stepper-msadams", "toggle-adaptive", "toggle-tolerance", "toggle-h_min(1e-3)", "toggle-h_max(0.05)", "move-construct", "move-assign-into-fresh", "move-assign-into-used", "re-ini"};
 
 struct Model {
-  Problem P; double tini, t; std::vector<double> y; bool any; int stepper; bool adaptive; bool tight; bool hmin_raised; int segments; double clock_slack;
+  Problem P; double tini, t; std::vector<double> y; bool any; int stepper; bool adaptive; bool tight; bool hmin_raised; bool hmax_lowered; int segments; double clock_slack;
 };
 
 static std::string hist_str(const std::vector<int>& h, int nsun) { std::string s = "nsun=" + std::to_string(nsun) + ":"; for (size_t i = 0; i < h.size(); i++) { if (i) s += ","; s += std::to_string(h[i]); } return s; }
@@ -30,7 +30,7 @@ static const gsl_odeiv2_step_type* steptype(int s) { return s == 0 ? gsl_odeiv2_
 static bool run_history(const std::vector<int>& h, int nsun, bool report) {
   Model m; m.P.nx = 2; m.P.d = nsun; m.P.nrho = 1; m.P.nsc = 1; m.P.family = 0; m.P.kappa = 0.3; m.P.kappa2 = 0.0;
   bool sw0[5] = {true, false, false, true, false}; for (int b = 0; b < 5; b++) m.P.sw[b] = sw0[b];
-  m.tini = 0.5; m.t = 0.5; m.y = probe_state(m.P, 0); m.any = true; m.stepper = 0; m.adaptive = true; m.tight = true; m.hmin_raised = false; m.segments = 0; m.clock_slack = 0;
+  m.tini = 0.5; m.t = 0.5; m.y = probe_state(m.P, 0); m.any = true; m.stepper = 0; m.adaptive = true; m.tight = true; m.hmin_raised = false; m.hmax_lowered = false; m.segments = 0; m.clock_slack = 0;
   std::unique_ptr<Probe> cur(new Probe(m.P, m.tini));
   cur->Set_rel_error(1e-10); cur->Set_abs_error(1e-10); cur->Set_h(1e-4); cur->Set_NumSteps(400);
   cur->set_flat(m.y);
@@ -82,6 +82,7 @@ static bool run_history(const std::vector<int>& h, int nsun, bool report) {
       case ST_RKF45: case ST_RK4: case ST_MSADAMS: m.stepper = op - ST_RKF45; cur->Set_GSL_step(steptype(m.stepper)); break;
       case ADAPT_TOGGLE: m.adaptive = !m.adaptive; cur->Set_AdaptiveStep(m.adaptive); break;
       case HMIN_TOGGLE: m.hmin_raised = !m.hmin_raised; if (m.hmin_raised) cur->Set_h_min(1e-3); else { cur->Set_h_min(std::numeric_limits<double>::min()); cur->Set_h(1e-4); } break;
+      case HMAX_TOGGLE: m.hmax_lowered = !m.hmax_lowered; cur->Set_h_max(m.hmax_lowered ? 0.05 : std::numeric_limits<double>::max()); break;   // an upper bound on the step: the same solution in more steps
       case TOL_TOGGLE: m.tight = !m.tight; cur->Set_rel_error(m.tight ? 1e-10 : 1e-8); cur->Set_abs_error(m.tight ? 1e-10 : 1e-8); break;
       case MOVE_CTOR: {
         std::unique_ptr<Probe> n(new Probe(std::move(*cur)));
